@@ -23,8 +23,8 @@ def run(ctx):
     ctx.assumptions += [
         "batch size >= 1 (batch size 0 panics in BatchCollector.Add on the first object; outside the property)",
         "one BatchedWriter life cycle (autoStartOnce: a stopped writer is never restarted); store errors (panics in the writer) are not modelled",
-        "no-blocking is proved only in part: a call past its running check is never abandoned by the writer, and after the writer's exit Wait is open and nothing is queued or in flight; absence of stuck states (C08_no_block_full_statement) and termination under a fair scheduler are not proved (watchdogs in the harness observe them)",
-        "completeness is proved up to 'Stop returns only after the writer terminated with everything written committed and done and nothing queued or in flight'; that an accepted object is written with its latest content (C08_complete_full_statement) is checked per run by the Go oracle and Corr.free_ok, not proved",
+        "no-blocking is proved in two forms for the repaired code: no reachable state with an unfinished call is stuck (C08_no_block / C08_progress) and every reachable state has a continuation of the schedule in which every call returns (C08_can_finish); that a fair scheduler actually takes such a continuation (termination under fairness, real timers) is not formalised (watchdogs in the harness observe it)",
+        "completeness is proved at value level over the model (C08_complete, C08_complete_written, C08_complete_ordered, C08_enqueue_accepted_before_stop): the object's content is one value announced at the Enqueue invocation and read by the writer at BatchWrite; the Go oracle and Corr.free_ok check the same predicates on every run",
         "scripted schedules are replayed at the granularity of the harness gates (Enqueue hook, flag test, writer callbacks); finer interleavings are covered by the proof only",
     ]
 
